@@ -32,6 +32,16 @@ CLAIMS = {
          "One parser, one copy: src/shared/** and crates/jiff-static/src/shared/** are token-identical modulo the generator's transformations. Does NOT decide behavioural equivalence of back-ends.", "4/C18"),
  "C20": ("E6: tag-specialised abstract interpretation of Repr (TAG-TABLE, ALIGN, PAIRING, DISPATCH, CONSTRUCT, SEND-SYNC)",
          "The refcount/tag/alignment argument of the tagged pointer: per tag, construct=+1, clone=+1, drop=-1, getters=0 with matching pointee types on every feasible path. Does NOT decide races inside Arc or allocator behaviour.", "4/C20"),
+ "C11": ("REL-GUARD + WINDOW (provenance terms and path conditions over rustc MIR) + E1 + E2",
+         "Calendar units are refused without a reference datetime on every path of round/total/compare; the start and end of every rounding window are measured from the reference, not from each other; Span entry points cannot panic without a discharge; ranged values in span.rs stay in range. Does NOT decide that the rounded span is the mode-prescribed neighbour, nor totals or comparisons as values.", "4/C11"),
+ "C12": ("SETTER-TABLE + SIGN-WRITERS + SIGN-GUARD (provenance terms, who-may-write, path conditions) + E1 + E2",
+         "Each Span unit setter goes through the checked constructor of that unit's own ranged type; the sign field has a fixed reviewed set of writers; every SignedDuration/Duration conversion returns Ok only under a whole-value sign check; no panic site reachable from the fallible SignedDuration API without a discharge. Does NOT decide equality with 128-bit reference arithmetic.", "4/C12"),
+ "C15": ("LABEL-TABLE (printer/parser designator tables extracted from MIR constants) + NO-DROP + E1",
+         "Every designator label the friendly printer can emit maps back, in the parser's table, to the same unit; the printers consume every unit of the span/duration (no unit is dropped); no panic site reachable from the duration parsers/printers without a discharge. Does NOT decide round-trip equality of values.", "4/C15"),
+ "C16": ("SPECIFIER-SET + NAME-TABLE + CHECKED-FIELD + SIGN-SOURCE (dispatch tables and provenance terms from MIR) + E1",
+         "The formatter and parser dispatch on agreeing specifier sets; month/weekday name tables of printer and parser agree (one recorded known finding: the parser's 'Tueday'); a parsed weekday is compared against the date on every success path; the printed offset sign is derived from the offset; strtime/RFC 2822 parsers cannot panic without a discharge. Does NOT decide that each specifier prints the C-library value.", "4/C16"),
+ "C19": ("LOCK-ORDER + FRESH-GUARD + LOCK-SCOPE + NO-UNSAFE (lock acquisition order and guard liveness over MIR)",
+         "Lock discipline of the zoneinfo/concatenated/bundled databases: locks are acquired in one global order and never nested re-entrantly, a cached entry is returned only under the TTL/metadata freshness guard, write locks are held across check-and-insert, the modules contain no unsafe. Does NOT decide history independence or linearizability of lookups as values.", "4/C19"),
 }
 NA = {
  "C09": "value-level round-trip identity of two large string functions; no necessary structural clause a static rule could decide without also firing on behaviour-preserving refactors (DESIGN.md section 8)",
